@@ -140,6 +140,27 @@ impl ParenthesizeFragments {
 impl VisitMut for ParenthesizeFragments {
     fn visit_expr_mut(&mut self, i: &mut syn::Expr) {
         use syn::Expr;
+        // A struct literal is not allowed bare where a block follows (`for x in $e { .. }`).
+        fn head(e: &mut Expr) {
+            if let Expr::Group(g) = e {
+                if matches!(&*g.expr, Expr::Struct(_)) {
+                    let expr = std::mem::replace(&mut g.expr, Box::new(Expr::Verbatim(Default::default())));
+                    *e = Expr::Paren(syn::ExprParen {
+                        attrs: std::mem::take(&mut g.attrs),
+                        paren_token: syn::token::Paren(g.group_token.span),
+                        expr,
+                    });
+                }
+            }
+        }
+        match i {
+            Expr::ForLoop(e) => head(&mut e.expr),
+            Expr::While(e) => head(&mut e.cond),
+            Expr::If(e) => head(&mut e.cond),
+            Expr::Match(e) => head(&mut e.expr),
+            Expr::Let(e) => head(&mut e.expr),
+            _ => {}
+        }
         match i {
             Expr::Binary(e) => {
                 Self::operand(&mut e.left);
